@@ -463,6 +463,17 @@ func (x *exec) reqEvent(t *task, s *sent) string {
 	return g.App("EReq", g.N(t.id), g.Z(x.now()), s.fh.term(), s.req.term())
 }
 
+// wokenEvent is the event of a request that waited for an open-owner
+// transaction and now retries: its PUTFH was resolved before it waited, so
+// the current file handle is set whatever happened to the file since.
+func (x *exec) wokenEvent(t *task, s *sent) string {
+	fh := s.fh
+	if fh.kind == 2 {
+		fh.linked = true
+	}
+	return g.App("EReq", g.N(t.id), g.Z(x.now()), fh.term(), s.req.term())
+}
+
 // send runs a COMPOUND in a new task.
 func (x *exec) send(s *sent) {
 	if x.stop {
@@ -548,7 +559,7 @@ func (x *exec) releaseParked(i int) {
 			x.blocked = append(x.blocked, b)
 		case wParked: // in the clock
 			x.e.release(b.t)
-			x.observe(b, x.reqEvent(b.t, b.s))
+			x.observe(b, x.wokenEvent(b.t, b.s))
 		default:
 			x.info.Outs["hang"]++
 			x.recordDead(x.reqEvent(b.t, b.s), "RpHang", nil)
@@ -999,7 +1010,7 @@ func (area) Execute(raw json.RawMessage) (term string, info *hcommon.Info, err e
 			switch x.e.wait(b.t) {
 			case wParked: // woke up late; parked in the clock
 				x.e.release(b.t)
-				x.observe(b, x.reqEvent(b.t, b.s))
+				x.observe(b, x.wokenEvent(b.t, b.s))
 			case wBlocked:
 				if round == 2 {
 					x.info.Outs["hang"]++
